@@ -7,7 +7,10 @@
 
    Not modelled (a line that uses them fails and sets [s_unmodelled]): ttyin, ttyout,
    regular expressions outside the fragment of [parse_re] (TsRegex.v), programs other than the helper (they are "not found"),
-   deadlines (ctxt.Err), and every text written to the log. *)
+   and every text written to the log.  Deadlines (ts.ctxt): only the two situations of
+   [c_deadline] and [c_cancelled] (TsState.v) -- the context expires while the script is blocked
+   on a sleeping helper, or is done before the script starts; what happens to later commands
+   once it has expired depends on timing and is flagged [s_racy]. *)
 From Coq Require Import List Bool Arith NArith.
 From Coq.Strings Require Import Byte.
 From GI Require Import Lib.Bytes Gen.TsRunConsts Txtar.Txtar TsRun.TsFs TsRun.TsRegex TsRun.TsState.
@@ -416,10 +419,28 @@ Definition wait_one (name : bytes) (st : state) : outcome :=
       else Done (set_bg st1 (replace_bg (s_bg st) name None))
   end.
 
-Definition cmd_wait (args : list bytes) (st : state) : outcome :=
+(* a background command that only the deadline will end *)
+Definition running_sleeper (b : bgcmd) : bool :=
+  p_sleeper (bg_proc b) && match p_status (bg_proc b) with PRunning => true | _ => false end.
+
+(* `wait` blocks on such a command until the context expires; the command is then stopped by
+   testscript itself, and "test timed out while running command" is a failure whatever the
+   polarity the command was started with (a command in front of it in the list that ended the
+   wrong way fails the line even earlier).  What the rest of a ContinueOnError run sees
+   afterwards depends on timing. *)
+Definition wait_times_out (cfg : config) (bgs : list bgcmd) : bool :=
+  c_deadline cfg && existsb running_sleeper bgs.
+
+Definition timed_out_state (cfg : config) (st : state) : state := mark_racy st (c_continue cfg).
+
+Definition cmd_wait (cfg : config) (args : list bytes) (st : state) : outcome :=
   match args with
-  | [] => wait_all true st
-  | [n] => wait_one n st
+  | [] => if wait_times_out cfg (s_bg st) then Failed (timed_out_state cfg st) else wait_all true st
+  | [n] =>
+      match find_bg (s_bg st) n with
+      | Some b => if wait_times_out cfg [b] then Failed (timed_out_state cfg st) else wait_one n st
+      | None => wait_one n st
+      end
   | _ => Failed st
   end.
 
@@ -508,6 +529,30 @@ Definition helper_writes (args : list bytes) : bool :=
   | [] => false
   end.
 
+(* how a foreground command ends: by itself (exit status zero or not), or stopped by
+   testscript because the context of the run is done (waitOrStop reports ctx.Err()) *)
+Inductive exec_end := EndOk | EndErr | EndTimedOut.
+
+Definition fg_end (cfg : config) (h : helper_res) : exec_end :=
+  if c_cancelled cfg then EndTimedOut
+  else if c_deadline cfg && h_sleeper h then EndTimedOut
+  else if N.eqb (h_code h) 0 then EndOk else EndErr.
+
+(* does the line return normally?  cmdExec: `err == nil && neg` fails, and on an error the
+   expired context is looked at BEFORE the polarity: being stopped by the deadline is never
+   the failure that "!" asks for *)
+Definition meets (neg : bool) (e : exec_end) : bool :=
+  match e with EndOk => negb neg | EndErr => neg | EndTimedOut => false end.
+
+(* not compared with the implementation: a sleeper that runs to its end; everything behind a
+   time-out in a ContinueOnError run; every command started under a context that is already done
+   (the stop signal races with the command) *)
+Definition fg_racy (cfg : config) (h : helper_res) (e : exec_end) : bool :=
+  match e with
+  | EndTimedOut => c_continue cfg || c_cancelled cfg
+  | _ => h_sleeper h
+  end.
+
 Definition cmd_exec (cfg : config) (neg : bool) (args : list bytes) (st : state) : outcome :=
   match args with
   | [] => Failed st
@@ -528,7 +573,7 @@ Definition cmd_exec (cfg : config) (neg : bool) (args : list bytes) (st : state)
                     let p := {| p_sleeper := h_sleeper h; p_code := h_code h; p_out := h_out h; p_err := h_err h; p_status := PRunning |} in
                     let fs_changed := helper_writes (removelast rest) in
                     let st1 := set_fs (set_in (set_outerr st [] []) []) (h_fs h) in
-                    Done (mark_racy (set_bg st1 (s_bg st ++ [{| bg_name := name; bg_neg := neg; bg_proc := p |}])) fs_changed)
+                    Done (mark_racy (set_bg st1 (s_bg st ++ [{| bg_name := name; bg_neg := neg; bg_proc := p |}])) (fs_changed || c_cancelled cfg))
                   else
                     let st1 := set_outerr st [] [] in
                     if neg then Done st1 else Failed st1
@@ -537,9 +582,9 @@ Definition cmd_exec (cfg : config) (neg : bool) (args : list bytes) (st : state)
       | None =>
           if can_start cfg st prog then
             let h := helper_run rest (s_in st) (s_env st) (s_cd st) (s_fs st) in
-            let st1 := mark_racy (set_fs (set_in (set_outerr st (h_out h) (h_err h)) []) (h_fs h)) (h_sleeper h) in
-            let err := negb (N.eqb (h_code h) 0) in
-            if Bool.eqb err neg then Done st1 else Failed st1
+            let e := fg_end cfg h in
+            let st1 := mark_racy (set_fs (set_in (set_outerr st (h_out h) (h_err h)) []) (h_fs h)) (fg_racy cfg h e) in
+            if meets neg e then Done st1 else Failed st1
           else
             let st1 := set_outerr st [] [] in
             if neg then Done st1 else Failed st1
@@ -583,7 +628,7 @@ Definition builtin_sem (cfg : config) (name : bytes) (neg : bool) (args : list b
   else if bytes_eqb name ((* "symlink" *) [x73; x79; x6d; x6c; x69; x6e; x6b]) then cmd_symlink args st
   else if bytes_eqb name ((* "unix2dos" *) [x75; x6e; x69; x78; x32; x64; x6f; x73]) then cmd_unix2dos args st
   else if bytes_eqb name ((* "unquote" *) [x75; x6e; x71; x75; x6f; x74; x65]) then unquote_loop args st
-  else if bytes_eqb name ((* "wait" *) [x77; x61; x69; x74]) then cmd_wait args st
+  else if bytes_eqb name ((* "wait" *) [x77; x61; x69; x74]) then cmd_wait cfg args st
   else Failed (set_unmodelled st).
 
 Inductive cmd_ref :=
